@@ -565,6 +565,24 @@ def _force(res):
     return out
 
 
+def _result_tensors(res):
+    """The tensors a caller holds after receiving `res`: tensor results, and for operator results the tensors of their
+    representation (what DEFINES the operator handed out) as well as its dense value."""
+    out = []
+    if isinstance(res, (tuple, list)):
+        for x in res:
+            out.extend(_result_tensors(x))
+    elif isinstance(res, _lo_class()):
+        try:
+            out.extend(t for t in res.representation() if torch.is_tensor(t) and not t.is_sparse)
+        except Exception:
+            pass
+        out.append(res.to_dense())
+    elif torch.is_tensor(res):
+        out.append(res)
+    return out
+
+
 def _index_of(items, a):
     idx = []
     for i, it in enumerate(items):
@@ -667,7 +685,15 @@ def _run_step(op, s, a):
         outs = [t for t in _force(res) if t.is_floating_point() and t.requires_grad]
         cots = [a["_late"]("cot%d" % j, _cot_lit(s, tuple(t.shape), L.RDT[t.dtype])) for j, t in enumerate(outs)]
         if outs:
-            _backprop(outs, cots)
+            # the tensors of the result are handed to the caller BEFORE the backward pass runs: it must leave them alone
+            held = [(t, t.detach().clone()) for t in _result_tensors(res)]
+            try:
+                _backprop(outs, cots)
+            finally:
+                # (also when the backward pass raised, e.g. autograd noticing the in-place write afterwards)
+                for t, c0 in held:
+                    if not _bit_equal(t, c0):
+                        a["_selfmutated"] = "the backward pass changed a tensor of the result it differentiates (max |change| %.3g)" % float((t.detach().double() - c0.double()).abs().max())
         return res
     if nm == "detach_":
         return op.detach_()
@@ -835,12 +861,18 @@ def _run_ops(case, plain):
             try:
                 with state.apply_settings(case.get("settings")):
                     res = _run_step(o, s, args[i])
-                    for t in _force(res):
+                    for t in _result_tensors(res):
                         results.append((i, nm, t, t.detach().clone()))
+                    if args[i].get("_selfmutated"):
+                        fail(nm, "result", hd, "mutated", "step %d (%s on %s): %s" % (i, nm, hd, args[i]["_selfmutated"]))
+                        return out
             except HarnessError:
                 raise
             except Exception as e:  # noqa: BLE001
                 out.errors[i] = e
+                if args[i].get("_selfmutated"):
+                    fail(nm, "result", hd, "mutated", "step %d (%s on %s): %s" % (i, nm, hd, args[i]["_selfmutated"]))
+                    return out
         out.labels += ["algo:%s:%s" % (nm, alg) for alg in state.algorithms(lines)]
         # 1. caller tensors
         bad = tracker.compare(grad_meta_ok)
